@@ -24,6 +24,7 @@ ENCODED = [diffs.diff_iter, diffs.reduce_iter, dicts.resolve, dicts.remove, dict
            progress.SmartProgressStorage, conventions.StorageKeyMarkingConvention, conventions.StorageStanzaCleaner,
            _handlers.ResourceHandler.adjust_cause, _processing.process_resource_event]
 META = {
+    'technique': 'bounded symbolic execution of the real kopf code (CrossHair 0.0.110 + z3): exhaustive path exploration per obligation cell, counterexamples replayed concretely; plus direct z3 queries whose formulas are generated from the source AST of the real functions (vkopf/astsmt.py; the kopf-managed marker rule for every prefix), validated against the real code on concrete vectors on every run',
     'bounds': 'H6b (E4, smt_marker): the marker rule (written iff the prefix is not recognised by itself) for EVERY prefix of 1..253 characters over [a-z0-9.-], from the AST of _store_marker/_detect_marked_prefixes. H5 (field view): a handled object (stored diff-base + finished progress) then one of 5 edits, an update handler on one of 4 fields, through one real processing step. Templates {a: X, b: Y}; X in absent|leaf|{c: leaf}|{c: leaf, d: leaf} (thorough) ; Y in absent|leaf; leaf in '
               'null|int(symbolic, unbounded)|[int]|{}|str(2 concrete values); field paths up to length 3; storage cells: '
               'annotations/status/smart progress x annotations/status/multi diff-base x v1 on/off; prefixes: 5 concrete + '
